@@ -67,6 +67,10 @@ if os.path.exists("pysnark_eqs"):
         qb.qape.flush()
     if any(ln.rstrip().endswith(".") for ln in open("pysnark_eqs")):
         out["sink"].append("pysnark.qaptools.backend")
+# the proof system the libsnark family will actually use: the flag that prove() / keygen / verify read lives in the BASE module
+lb = sys.modules.get("pysnark.libsnark.backend")
+if lb is not None:
+    out["libsnark_base_use_groth"] = bool(getattr(lb, "use_groth", None))
 if cfg.get("poseidon"):
     try:
         import pysnark.poseidon_hash as ph
